@@ -311,11 +311,12 @@ def _runner(E, tasker):
 
 
 # ---------------------------------------------------------------- loop ghost callables
-def _tick_enter(E, variant=0):
+def _tick_enter(E, variant="tick"):
     env = E.frame.env
-    if variant != 2:
+    env["g_variant"] = variant
+    if variant in ("tick", "sweep"):
         env["g_R0"] = snap(E, env["ready"])
-    if variant == 0:
+    if variant == "tick":
         env["g_A0"] = snap(E, env["aborted"])
     env["g_base"] = Sym(E.ct_length(), "int")
     _new_tick_ghost(E)
@@ -325,7 +326,12 @@ def _tick_enter(E, variant=0):
 
 
 def _tick_begin(E):
-    E.frame.env.update(g_sent=0, g_insend=False)
+    env = E.frame.env
+    env.update(g_sent=0, g_insend=False, g_more0=env.get("more", False))
+
+
+STOP_STATUS = ("a runner that raised StopIteration is neither started nor running: handling its entry leaves `more` "
+               "as it was")
 
 
 def _tick_end(E):
@@ -344,6 +350,9 @@ def _tick_end(E):
     else:
         stz = None
         out = z3.IntVal(3)
+        if env.get("g_variant") == "more":
+            # C03 [v3]: decided here, under its own name; the rest of the iteration continues under it
+            E.oblige("stop-status", E.tobool(E.equal(env["more"], env["g_more0"])), STOP_STATUS)
     out = z3.simplify(out)
     gset(E, "g_out", i, Sym(out, "int"))
     for name, cond in (("g_k", out <= 1), ("g_d", out != 0), ("g_a", out >= 2)):
@@ -568,7 +577,7 @@ GHOST = {"before": {"more = False": _tick_boundary, KBI_LINE: _flag("g_kbi"), EX
                     EXC_LINE: _flag("g_exc")}}
 
 
-# what [v1] needs of the queue during a tick: shape of `ready` and WHICH tasker sits where (not the times)
+# what [v2] needs of the queue during a tick: shape of `ready` and WHICH tasker sits where (not the times)
 QUEUE_INV = [
     "len(ready) == len(g_R0) - _i + g_k[_i]",
     "forall(lambda j: implies(0 <= j and j < len(g_R0) - _i, ready[j] == g_R0[_i + j]), trigger=lambda j: ready[j][0])",
@@ -581,7 +590,7 @@ IF_MORE = "if status == RUNNING or status == STARTED: more = True"
 
 
 def _status_maybe(E):
-    """[v2] reading `status` at the end of the tick body: when no statement of this path has bound it (the runner
+    """[v3] reading `status` at the end of the tick body: when no statement of this path has bound it (the runner
     raised StopIteration before the assignment), the local is either still unbound (no earlier entry of the whole
     run assigned it) or holds the value left by the previously handled entry: both are explored"""
     from pyvc.engine import _UNBOUND
@@ -592,27 +601,32 @@ def _status_maybe(E):
 
 
 def _loops(variant):
-    """variant 0: C02 (setup, tick rule, stamp); 1: C03 sweep and routes; 2: C03 `more` flag and exit conditions"""
-    bound_status = {"g_w": INT, "status": INT}
-    tick = dict(locals=bound_status, enter=lambda E: _tick_enter(E, variant), havoc=_havoc_ghost(GHOST_TICK), body_begin=_tick_begin,
-                body_end=_tick_end, force=True)
+    """Skedder.run is verified in four passes over the same source text, each carrying the invariants of its own
+    clauses only (a pass that does not carry the queue shape sees a popleft from an empty deque as one more exceptional
+    path; the passes that carry it exclude that path):
+       'setup' C02  setup loops, stamp of every tick          'tick'  C02  the tick rule (queue, sends, aborted)
+       'sweep' C03  abort sweep on every route                'more'  C03  the `more` flag and the exit conditions"""
     none = dict(inv=[], force=True)
-    if variant == 0:
+    light_sweep = dict(inv=SWEEP_INV[:1], force=True, enter=_sweep_enter, body_begin=_sweep_begin, exit=_sweep_exit)
+    tick = dict(inv=[], locals={"g_w": INT, "status": INT}, enter=lambda E: _tick_enter(E, variant),
+                havoc=_havoc_ghost(GHOST_TICK), body_begin=_tick_begin, body_end=_tick_end, force=True)
+    loops = {0: dict(none, index_name="hix"), 1: none, 2: dict(inv=[]), 3: tick, 4: dict(inv=["True"]), 5: none,
+             6: light_sweep}
+    if variant == "setup":
+        loops.update({0: dict(inv=SETUP_OUTER, index_name="hix", force=True, havoc=_havoc_ghost(("g_off",)),
+                              exit=_obliger("setup-post", SETUP_POST)),
+                      1: dict(inv=SETUP_INNER, force=True, exit=_inner_exit),
+                      2: dict(inv=OUTER_INV),
+                      5: dict(inv=STAMP_INV, force=True, enter=_obliger("tick-post", STAMP_POST))})
+    elif variant == "tick":
         tick.update(inv=TICK_INV, exit=lambda E: _tick_exit(E, TICK_POST))
-        return {0: dict(inv=SETUP_OUTER, index_name="hix", force=True, havoc=_havoc_ghost(("g_off",)),
-                        exit=_obliger("setup-post", SETUP_POST)),
-                1: dict(inv=SETUP_INNER, force=True, exit=_inner_exit),
-                2: dict(inv=OUTER_INV), 3: tick, 4: dict(inv=["True"]),
-                5: dict(inv=STAMP_INV, force=True, enter=_obliger("tick-post", STAMP_POST)),
-                6: dict(inv=SWEEP_INV[:1], force=True, enter=_sweep_enter, body_begin=_sweep_begin, exit=_sweep_exit)}
-    if variant == 1:
+    elif variant == "sweep":
         tick.update(inv=QUEUE_INV)
-        return {0: dict(none, index_name="hix"), 1: none, 2: dict(inv=[]), 3: tick, 4: dict(inv=["True"]), 5: none,
-                6: dict(inv=SWEEP_INV, force=True, enter=_sweep_enter, body_begin=_sweep_begin, exit=_sweep_exit)}
-    tick.update(inv=MORE_INV, locals={"g_w": INT})
-    return {0: dict(none, index_name="hix"), 1: none, 2: dict(inv=[]), 3: tick, 4: dict(inv=["True"]),
-            5: dict(inv=[], force=True, enter=_obliger("tick-post", CONTINUE_POST)),
-            6: dict(inv=SWEEP_INV[:1], force=True, enter=_sweep_enter, body_begin=_sweep_begin, exit=_sweep_exit)}
+        loops[6] = dict(inv=SWEEP_INV, force=True, enter=_sweep_enter, body_begin=_sweep_begin, exit=_sweep_exit)
+    elif variant == "more":
+        tick.update(inv=MORE_INV, locals={"g_w": INT})
+        loops[5] = dict(inv=[], force=True, enter=_obliger("tick-post", CONTINUE_POST))
+    return loops
 
 
 RUN_MODIFIES = ["self.ready[*]", "self.aborted[*]", "self.stamp",
@@ -621,9 +635,13 @@ ANY_EXC = {"Exception": ["True"], "KeyboardInterrupt": ["True"], "SystemExit": [
 RUN_PARAMS = dict(self=Ref("Skedder"), growable=BOOL)
 
 contract(FS, "Skedder.run", "C02", params=RUN_PARAMS, setup=_setup_run, assumes=DISTINCT, dedupe=True,
-         ghost=GHOST, loops=_loops(0), modifies=RUN_MODIFIES, frame=False, raises=ANY_EXC,
-         note="[v0] C02: setup, tick rule, stamp.  The exits and the sweep are decided in [v1]/[v2] (C03); the path on "
-              "which the local `status` is read unbound is generated in [v2] only")
+         ghost=GHOST, loops=_loops("setup"), modifies=RUN_MODIFIES, frame=False, raises=ANY_EXC,
+         note="[v0] C02 setup loops (ready == old ready ++ one entry per taskable of each house, in order) and the stamp "
+              "of every completed tick")
+contract(FS, "Skedder.run", "C02", params=RUN_PARAMS, setup=_setup_run, assumes=DISTINCT, dedupe=True,
+         ghost=GHOST, loops=_loops("tick"), modifies=RUN_MODIFIES, frame=False, raises=ANY_EXC,
+         note="[v1] C02 tick rule.  The exits and the sweep are decided in [v2]/[v3] (C03); the path on which the local "
+              "`status` is read unbound is generated in [v3] only")
 
 SWEPT = ["len(self.ready) == 0", "ct_len() == L_g_fbase + len(L_g_F0)", "aborts_in_order(L_g_F0, L_g_fbase)"]
 PARTIAL = ["len(self.ready) == len(L_g_F0) - L_g_swi - 1",
@@ -640,25 +658,25 @@ EXC_POST = (["implies(L_g_swept, %s)" % c for c in SWEPT] + ["implies(not L_g_sw
             ["implies(L_g_insend, %s)" % c for c in CUT] + [RAISER])
 
 contract(FS, "Skedder.run", "C03", params=RUN_PARAMS, setup=_setup_run, assumes=DISTINCT, dedupe=True,
-         ghost=GHOST, loops=_loops(1), modifies=RUN_MODIFIES, frame=False,
+         ghost=GHOST, loops=_loops("sweep"), modifies=RUN_MODIFIES, frame=False,
          ensures=SWEPT + ["L_g_swept and not L_g_exc"] + ["implies(L_g_insend, %s)" % c for c in CUT] + [RAISER],
          raises={"Exception": EXC_POST, "KeyboardInterrupt": EXC_POST, "SystemExit": EXC_POST},
          findings={"tasker-send-raised": "True"},
-         note="[v1] C03: abort sweep on every route (normal, KeyboardInterrupt, exception re-raised); an exception out "
+         note="[v2] C03: abort sweep on every route (normal, KeyboardInterrupt, exception re-raised); an exception out "
               "of an ABORT send in the sweep escapes and leaves the remaining entries un-aborted (declared in raises: "
               "limitation of the code)")
 
 GHOST2 = {"before": dict(GHOST["before"])}
 GHOST2["before"][IF_MORE] = _status_maybe
 contract(FS, "Skedder.run", "C03", params=RUN_PARAMS, setup=_setup_run, assumes=DISTINCT, dedupe=True,
-         ghost=GHOST2, loops=_loops(2), modifies=RUN_MODIFIES, frame=False,
+         ghost=GHOST2, loops=_loops("more"), modifies=RUN_MODIFIES, frame=False,
          ensures=[
              # the loop is left by `break` only right after a tick with nothing queued or nothing started / running
              # (or by KeyboardInterrupt)
              "L_g_kbi or (not L_more) or len(L_g_F0) == 0"],
          raises=ANY_EXC, findings={"runner-stopped": "True"},
-         note="[v2] C03: the `more` flag and the exit conditions; the queue shape is not carried here (a popleft from an "
-              "empty deque is then one more exceptional path, excluded in [v0]/[v1])")
+         note="[v3] C03: the `more` flag and the exit conditions; the queue shape is not carried here (a popleft from an "
+              "empty deque is then one more exceptional path, excluded in [v1]/[v2])")
 
 
 # ---------------------------------------------------------------- static obligation: who writes .ready
@@ -671,20 +689,22 @@ def _ready_writers(repo):
     allowed = {"Skedder.__init__", "Skedder.addReadyTask", "Skedder.run"}
     bad = []
     n = 0
+    import os as _os
     for rel in all_repo_files(repo.root):
         if "/test/" in rel:
             continue
         try:
+            with open(_os.path.join(repo.root, rel), "rb") as fh:
+                if b"ready" not in fh.read():
+                    continue                      # the identifier cannot occur in this file
             m = repo.module(rel)
-        except SourceError:
+        except (SourceError, OSError):
             continue
         owner = {}
-        for qual, fn in m.functions.items():
+        # innermost enclosing function of every node (deeper qualified names win)
+        for qual, fn in sorted(m.functions.items(), key=lambda kv: kv[0].count(".")):
             for node in _ast.walk(fn):
-                owner.setdefault(id(node), qual)
-        for qual, fn in sorted(m.functions.items(), key=lambda kv: -len(kv[0])):
-            for node in _ast.walk(fn):
-                owner[id(node)] = qual if owner.get(id(node), "").count(".") <= qual.count(".") else owner[id(node)]
+                owner[id(node)] = qual
         for node in _ast.walk(m.tree):
             hit = False
             if isinstance(node, _ast.Attribute) and node.attr == "ready":
@@ -735,3 +755,408 @@ def _period_lemmas():
 
 for _n, _pc, _g in _period_lemmas():
     REG.lemmas.append(("C02", _n, _pc, _g))
+
+
+# ================================================================= native side (cross-check and replay)
+# Real Skedder (object.__new__ + attributes), tasker doubles whose runner is a scripted generator (statuses,
+# StopIteration, raising, bids that change period / desire / status of any tasker), store / house / timer doubles and a
+# console double that marks the tick starts, the exits and the start of the finally clause.
+import collections as _co
+
+
+class _Rec:
+    def __init__(self):
+        self.events = []          # sends, in call order
+        self.reads = []           # (index into events at the time, tasker, value) for every read of tasker.status
+        self.ticks = []           # one record per tick start
+        self.fin = None           # record at the start of the finally clause
+        self.flags = set()
+        self.sk = None
+        self.quiet = False
+
+    def snap_queue(self, q):
+        return [tuple(e) for e in q]
+
+
+_REC = _Rec()          # recorder of the run in progress (the native twins of ct_len / ct_is read it)
+
+
+class ConsoleD:
+    class Wordage:
+        concise, terse, verbose, profuse = 1, 2, 3, 4
+    _verbosity = 0
+
+    def __init__(self, rec):
+        self.rec = rec
+
+    def profuse(self, msg, *a, **k):
+        rec = self.rec
+        if msg.startswith("\nRunning Skedder") and rec.sk is not None:
+            sk = rec.sk
+            if len(rec.ticks) > 300:
+                # safety valve of the harness (a seeded mutant may never leave the loop): scripts end within a few ticks
+                raise ScriptedError("runaway scheduler: more than 300 ticks")
+            rec.ticks.append(dict(index=len(rec.events), ready=rec.snap_queue(sk.ready), aborted=rec.snap_queue(sk.aborted),
+                                  stamp=sk.stamp, stores=[h.store.stamp for h in sk.houses]))
+
+    def terse(self, msg, *a, **k):
+        rec = self.rec
+        for key, flag in (("No ready taskers", "no_ready"), ("No running or started", "no_more"),
+                          ("KeyboardInterrupt forcing", "kbi"), ("SystemExit forcing", "exc"), ("Surprise exception", "exc")):
+            if msg.startswith(key):
+                rec.flags.add(flag)
+        if msg.startswith("Aborting all ready Taskers") and rec.sk is not None:
+            rec.fin = dict(index=len(rec.events), ready=rec.snap_queue(rec.sk.ready), aborted=rec.snap_queue(rec.sk.aborted))
+
+    concise = verbose = lambda self, *a, **k: None
+
+
+class StoreD:
+    def __init__(self, name, stamp):
+        self.name = name
+        self.stamp = stamp
+
+    def changeStamp(self, stamp):
+        self.stamp = float(stamp)
+
+    def expose(self, **k):
+        pass
+
+    def __deepcopy__(self, memo):
+        return self
+
+
+class TimerD:
+    elapsed = 0.0
+    remaining = 0.0
+    expired = True
+
+    def restart(self, *a, **k):
+        pass
+
+    repeat = restart
+
+
+class HouseD:
+    def __init__(self, name, store, taskables):
+        self.name, self.store, self.taskables = name, store, taskables
+
+
+class ScriptedError(Exception):
+    pass
+
+
+class TaskerD:
+    """tasker double: .runner is a primed generator that follows `script`, one step per send:
+    ('st', status, bids) | ('stop',) | ('raise', exception instance); bids = [(tasker index, attr, value)]"""
+
+    def __init__(self, name, rec, period, schedule, store, script, status=0, desire=0):
+        self.name, self.rec, self.period, self.schedule, self.store = name, rec, period, schedule, store
+        self.script = list(script)
+        self._status = status
+        self.desire = desire
+        self.all = None
+        self.runner = self._gen()
+        next(self.runner)
+
+    def _get_status(self):
+        if not self.rec.quiet:
+            self.rec.reads.append((len(self.rec.events), self, self._status))
+        return self._status
+
+    def _set_status(self, v):
+        self._status = v
+
+    status = property(_get_status, _set_status)
+
+    def __deepcopy__(self, memo):
+        return self
+
+    def _gen(self):
+        control = yield self._status
+        while True:
+            step = self.script.pop(0) if self.script else ("st", 0, [])
+            ev = dict(tasker=self, control=control, desire=self.desire, outcome=None, period_after=None,
+                      exc=None)
+            self.rec.events.append(ev)
+            for (ix, attr, val) in (step[2] if step[0] == "st" else []):
+                t = self.all[ix % len(self.all)]
+                if attr == "status":
+                    t._status = val
+                else:
+                    setattr(t, attr, val)
+            if step[0] == "stop":
+                ev["outcome"] = ("stop",)
+                ev["period_after"] = self.period
+                return
+            if step[0] == "raise":
+                ev["outcome"] = ("raise",)
+                ev["exc"] = step[1]
+                ev["period_after"] = self.period
+                raise step[1]
+            self._status = step[1] if not any(a == "status" and self.all[ix % len(self.all)] is self
+                                              for ix, a, _v in step[2]) else self._status
+            ev["outcome"] = ("ret", step[1])
+            ev["period_after"] = self.period
+            control = yield step[1]
+
+
+PERIODS = [0.0, 0.125, 0.25, 0.5, 1.0]
+
+
+def _mk_taskers(rng, rec, stores, n, raising=True):
+    ts = []
+    for k in range(n):
+        script = []
+        for _ in range(rng.randint(0, 5)):
+            r = rng.random()
+            if r < 0.08:
+                script.append(("stop",))
+                break
+            if raising and r < 0.13:
+                script.append(("raise", ScriptedError("scripted failure of an action")))
+                break
+            if raising and r < 0.15:
+                script.append(("raise", KeyboardInterrupt()))
+                break
+            bids = []
+            for _b in range(rng.choice([0, 0, 1, 2])):
+                attr = rng.choice(["period", "desire", "status"])
+                val = rng.choice(PERIODS) if attr == "period" else rng.randint(0, 4)
+                bids.append((rng.randint(0, 7), attr, val))
+            script.append(("st", rng.choice([0, 1, 2, 2, 2, 3, 4]), bids))
+        ts.append(TaskerD("t%d" % k, rec, rng.choice(PERIODS), rng.choice([0, 1, 1, 2]), rng.choice(stores), script,
+                          status=rng.randint(0, 4), desire=rng.randint(0, 4)))
+    for t in ts:
+        t.all = ts
+    return ts
+
+
+def _mk_skedder(nr, rng, rec, houses, pre_ready=()):
+    sk = object.__new__(nr.mod.Skedder)
+    sk.name = "native"
+    sk.period = rng.choice([0.125, 0.25, 0.5])
+    sk.stamp = rng.choice([0.0, 0.5, 3.0])
+    sk.real = False
+    sk.timer, sk.elapsed = TimerD(), TimerD()
+    sk.houses = houses
+    sk.ready = _co.deque(pre_ready)
+    sk.aborted = _co.deque()
+    rec.sk = sk
+    return sk
+
+
+def _mk_add(rng, i, cex, nr):
+    rec = _Rec()
+    rec.quiet = True
+    store = StoreD("s", rng.choice([0.0, 0.5, 2.25]))
+    ts = _mk_taskers(rng, rec, [store], rng.randint(1, 4))
+    sk = _mk_skedder(nr, rng, rec, [], [(t, rng.choice(PERIODS), t.period) for t in ts[1:]])
+    return {"self": sk, "tasker": ts[0], "_old": list(sk.ready)}
+
+
+def _check_add(env, nr, outcome, result, exc):
+    sk, old = env["self"], env["_old"]
+    return [] if list(sk.ready)[:len(old)] == old else ["addReadyTask changed the entries already queued"]
+
+
+class _Obj:
+    pass
+
+
+def _mk_order(rng, i, cex, nr):
+    h = object.__new__(nr.mod.House)
+    for name in ("fronts", "mids", "backs"):
+        setattr(h, name, [_Obj() for _ in range(rng.randint(0, 3))])
+    h.taskables = []
+    h.name = "h"
+    return {"self": h}
+
+
+def _mk_run(rng, i, cex, nr):
+    global _REC
+    rec = _REC = _Rec()
+    nr.mod.console = ConsoleD(rec)
+    nh = rng.choice([1, 1, 2])
+    stores = [StoreD("s%d" % k, rng.choice([0.0, 7.0])) for k in range(nh)]
+    ts = _mk_taskers(rng, rec, stores, rng.randint(0, 5), raising=(i % 3 != 0))
+    houses = []
+    pool = list(ts)
+    rng.shuffle(pool)
+    for k in range(nh):
+        cut = len(pool) if k == nh - 1 else rng.randint(0, len(pool))
+        mine, pool = pool[:cut], pool[cut:]
+        for t in mine:
+            if rng.random() < 0.85:
+                t.store = stores[k]
+        houses.append(HouseD("h%d" % k, stores[k], mine))
+    sk = _mk_skedder(nr, rng, rec, houses)
+    rec.old_ready = list(sk.ready)
+    rec.order = [t for h in houses for t in h.taskables]
+    return {"self": sk, "growable": False}
+
+
+def _call_run(env, nr):
+    sk = env["self"]
+    try:
+        return type(sk).run(sk, growable=env["growable"])
+    except (KeyboardInterrupt, SystemExit) as ex:
+        # the cross-check driver only handles Exception: re-raise under the same class NAME
+        raise type(type(ex).__name__, (Exception,), {})(*ex.args)
+
+
+def _tick_reference(rec, sk):
+    """replay every tick of the log against the statement; returns (messages, per-tick info)"""
+    msgs = []
+    info = []
+    marks = list(rec.ticks)
+    for t, tk in enumerate(marks):
+        end = marks[t + 1]["index"] if t + 1 < len(marks) else (rec.fin["index"] if rec.fin else len(rec.events))
+        evs = rec.events[tk["index"]:end]
+        nxt = marks[t + 1] if t + 1 < len(marks) else rec.fin
+        p = 0
+        kept, ab, more, cut, out, crash = [], [], False, None, [], False
+        reads = [r for r in rec.reads if tk["index"] <= r[0] <= end]
+        for j, (tasker, retime, period) in enumerate(tk["ready"]):
+            if retime > tk["stamp"]:
+                kept.append((tasker, retime, period))
+                out.append(0)
+                vals = [v for (_ix, who, v) in reads if who is tasker]
+                if vals and vals[-1] in (1, 2):
+                    more = True
+                continue
+            if p >= len(evs):
+                if t + 1 == len(marks) and (rec.flags & {"exc", "kbi"}):
+                    cut, crash = j, True        # the tick was cut by an exception that no send raised: entry j not popped
+                else:
+                    msgs.append("tick %d: due entry %d (%s) was not run" % (t, j, tasker.name))
+                break
+            e = evs[p]
+            p += 1
+            if e["tasker"] is not tasker:
+                msgs.append("tick %d: send %d went to %s, queue order wants %s" % (t, p, e["tasker"].name, tasker.name))
+                break
+            if e["control"] != e["desire"]:
+                msgs.append("tick %d: %s was sent %r, its desire at that moment was %r" % (t, tasker.name, e["control"], e["desire"]))
+            if e["outcome"][0] == "ret":
+                if e["outcome"][1] == 3:
+                    ab.append((tasker, tk["stamp"], period))
+                    out.append(2)
+                else:
+                    kept.append((tasker, retime + e["period_after"], e["period_after"]))
+                    out.append(1)
+                    if e["outcome"][1] in (1, 2):
+                        more = True
+            elif e["outcome"][0] == "stop":
+                ab.append((tasker, tk["stamp"], period))
+                out.append(3)
+            else:
+                cut = j
+                break
+        else:
+            if p != len(evs):
+                msgs.append("tick %d: %d sends, %d entries were due" % (t, len(evs), p))
+        exp_ready = (tk["ready"][cut + (0 if crash else 1):] + kept) if cut is not None else kept
+        if nxt is not None and not msgs:
+            if nxt["ready"] != exp_ready:
+                msgs.append("tick %d: ready afterwards is %r, the tick rule gives %r" % (
+                    t, [(a.name, b, c) for a, b, c in nxt["ready"]], [(a.name, b, c) for a, b, c in exp_ready]))
+            if nxt["aborted"] != tk["aborted"] + ab:
+                msgs.append("tick %d: aborted afterwards differs from old aborted ++ entries aborted in this tick" % t)
+        if t + 1 < len(marks) and not msgs:
+            if marks[t + 1]["stamp"] != tk["stamp"] + sk.period or any(s_ != marks[t + 1]["stamp"] for s_ in marks[t + 1]["stores"]):
+                msgs.append("tick %d: stamp / store stamps after the tick are not stamp + period" % t)
+        info.append(dict(kept=kept, more=more, cut=cut, out=out, ready=tk["ready"], crash=crash))
+        if msgs:
+            break
+    return msgs, info
+
+
+def _check_c02(env, nr, outcome, result, exc):
+    rec, sk = _REC, env["self"]
+    msgs = []
+    if rec.ticks:
+        first = rec.ticks[0]
+        exp = rec.old_ready + [(t, first["stamp"] if t.store in [h.store for h in sk.houses] else t.store.stamp, None)
+                               for t in rec.order]
+        got = first["ready"]
+        if len(got) != len(exp) or any(g[0] is not e[0] for g, e in zip(got, exp)):
+            msgs.append("setup: ready is not old ready ++ one entry per taskable of each house in order")
+        if any(s_ != first["stamp"] for s_ in first["stores"]):
+            msgs.append("setup: a house store's stamp differs from the skedder's")
+    m2, _info = _tick_reference(rec, sk)
+    return msgs + m2
+
+
+def _check_c03(env, nr, outcome, result, exc):
+    rec, sk = _REC, env["self"]
+    msgs, info = _tick_reference(rec, sk)
+    if msgs:
+        return []            # a tick-rule deviation is C02's subject (reported there)
+    out = []
+    if rec.fin is None:
+        return ["the finally clause never started"]
+    last = info[-1] if info else None
+    complete = [x for x in info if x["cut"] is None]
+    for t, x in enumerate(info):
+        cont = t + 1 < len(info)
+        if x["cut"] is None and "kbi" not in rec.flags:
+            should = bool(x["kept"]) and x["more"]
+            if cont != should:
+                out.append("tick %d: %s although ready %s and %s tasker started / running" % (
+                    t, "another tick follows" if cont else "the run ended", "is non-empty" if x["kept"] else "is empty",
+                    "some" if x["more"] else "no"))
+    f0 = rec.fin["ready"]
+    sweep = rec.events[rec.fin["index"]:]
+    swept_all = len(sweep) == len(f0) and all(e["control"] == 3 and e["tasker"] is q[0] for e, q in zip(sweep, f0))
+    escaped = bool(sweep) and sweep[-1]["outcome"][0] == "raise"
+    if not escaped and not swept_all:
+        out.append("sweep: the ABORT sends are not exactly one per entry still queued, in order")
+    if not escaped and len(sk.ready) != 0:
+        out.append("sweep: ready is not empty afterwards")
+    if last is not None and last["crash"]:
+        out.append("the run was cut inside a tick by %r, which no runner raised" % (exc,))
+    if last is not None and last["cut"] is not None and not last["crash"]:
+        raiser = last["ready"][last["cut"]][0]
+        if not any(e["tasker"] is raiser and e["control"] == 3 for e in sweep):
+            out.append("implies(L_g_insend, swept_abort(L_g_R0[L_g_cur][0])): %s, whose run raised, got no ABORT" % raiser.name)
+    return out
+
+
+def _view_run(env, nr):
+    rec, sk = _REC, env["self"]
+    _msgs, info = _tick_reference(rec, sk)
+    fin = rec.fin or dict(index=len(rec.events), ready=[])
+    sweep = rec.events[fin["index"]:]
+    last = info[-1] if info else dict(kept=[], more=False, cut=None, out=[], ready=[], crash=False)
+    cut = None if last["crash"] else last["cut"]
+    ks = [0]
+    for o in last["out"]:
+        ks.append(ks[-1] + (1 if o <= 1 else 0))
+    return {"L_g_F0": fin["ready"], "L_g_fbase": fin["index"], "L_g_kbi": "kbi" in rec.flags, "L_g_exc": "exc" in rec.flags,
+            "L_g_swept": not (bool(sweep) and sweep[-1]["outcome"][0] == "raise"),
+            "L_g_swi": max(0, len(sweep) - 1), "L_g_insend": cut is not None, "L_g_cur": cut if cut is not None else 0,
+            "L_g_R0": last["ready"], "L_g_k": ks + [ks[-1]] * 4, "L_g_out": last["out"] + [9] * 4, "L_more": last["more"]}
+
+
+ct_len.native = lambda: len(_REC.events)
+
+
+def _ct_is_native(k, name, recv=None, arg=None):
+    if not (0 <= k < len(_REC.events)):
+        return False
+    e = _REC.events[k]
+    return name == "send" and (recv is None or e["tasker"] is recv) and (arg is None or e["control"] == arg)
+
+
+ct_is.native = _ct_is_native
+aborts_in_order.native = lambda f0, fbase: all(_ct_is_native(fbase + k, "send", f0[k][0], 3) for k in range(len(f0)))
+swept_abort.native = lambda tasker: any(e["tasker"] is tasker and e["control"] == 3
+                                        for e in _REC.events[(_REC.fin or {"index": len(_REC.events)})["index"]:])
+
+_cs = REG.contracts
+_cs[(FS, "Skedder.addReadyTask")][0].replay = dict(make=_mk_add, check=_check_add, count=200)
+_cs[(FH, "House.orderTaskables")][0].replay = dict(make=_mk_order, count=100)
+_cs[(FS, "Skedder.run")][1].replay = dict(make=_mk_run, call=_call_run, view=_view_run, check=_check_c02, count=250)
+_cs[(FS, "Skedder.run")][2].replay = dict(make=_mk_run, call=_call_run, view=_view_run, check=_check_c03, count=250)
+_cs[(FS, "Skedder.run")][3].replay = dict(make=_mk_run, call=_call_run, view=_view_run, count=150)
